@@ -131,8 +131,14 @@ func (e *Exec) envForLoop(fr *Frame, h *ssa.BasicBlock, st *State) *Env {
 				break
 			}
 			if v, have := fr.vals[phi]; have && phi.Comment == "rangeindex" {
-				env.vars[fmt.Sprintf("_i%d", ord)] = v
-				env.vars[fmt.Sprintf("_n%d", ord)] = Val{T: "(+ " + v.T + " 1)", S: SInt}
+				k := ord
+				if fr.ctrOrd != nil {
+					if c, ok := fr.ctrOrd[ord]; ok {
+						k = c // the number the contract uses for this loop
+					}
+				}
+				env.vars[fmt.Sprintf("_i%d", k)] = v
+				env.vars[fmt.Sprintf("_n%d", k)] = Val{T: "(+ " + v.T + " 1)", S: SInt}
 			}
 		}
 	}
